@@ -112,15 +112,21 @@ def rand_case(rng: random.Random, s: str) -> str:
     return ''.join(c.upper() if rng.random() < 0.5 else c for c in s)
 
 
-def gen_fileset(rng: random.Random, n_min: int = 3, n_max: int = 14, tag: str = '') -> Dict[str, bytes]:
+# letters whose lower-case form is not their case-folded form (and 'ß', whose upper-case form is two letters): names the
+# zip, virtual and directory back ends can carry (a VPK cannot: ASCII only)
+UNI_FOLDERS = ['sound/straße', 'µ', 'mat/ſub']
+UNI_BASES = ['straße.txt', 'ς.vmt', 'ſet.txt', 'µ.txt', 'Ωmega.vtf', 'ǅ.txt']
+
+
+def gen_fileset(rng: random.Random, n_min: int = 3, n_max: int = 14, tag: str = '', unicode_names: bool = False) -> Dict[str, bytes]:
     files: Dict[str, bytes] = {}
     keys: set = set()
     want = rng.randint(n_min, n_max)
     tries = 0
     while len(files) < want and tries < 200:
         tries += 1
-        folder = rng.choice(FOLDERS)
-        base = rng.choice(BASES)
+        folder = rng.choice(FOLDERS + UNI_FOLDERS) if unicode_names else rng.choice(FOLDERS)
+        base = rng.choice(BASES + UNI_BASES * 2) if unicode_names else rng.choice(BASES)
         name = '/'.join(rand_case(rng, c) for c in (folder.split('/') if folder else []) + [base])
         k = name.casefold()
         if k in keys:
@@ -471,20 +477,23 @@ def nontrivial_set(files: Dict[str, bytes]) -> bool:
 
 
 def engine_backends(run, rng: random.Random, base: str, case_id: Any, sample: bool) -> None:
-    files = gen_fileset(rng)
+    uni = isinstance(case_id, int) and case_id % 4 == 3
+    files = gen_fileset(rng, unicode_names=uni)
     case = {'regen': ['backends', case_id], 'files': sorted(files)}
     ck = Checker(run, 'backends', case)
     work = tempfile.mkdtemp(prefix='b-', dir=base)
     built: List[Built] = []
     try:
         try:
-            for kind in ('virtual', 'zip', 'vpk', 'raw'):
+            for kind in ('virtual', 'zip', 'raw') if uni else ('virtual', 'zip', 'vpk', 'raw'):
                 built.append(build(kind, files, work, 'set', rng))
+            if uni and any(not n.isascii() for n in files):
+                run.count('file_sets_with_non_ascii_names')
         except Exception:
             run.violation('building a backend from the file set failed', witness=traceback.format_exc()[-2000:],
                           key='backend-constructor-raises', engine='backends', case=case)
             return
-        exact_raw = not built[3].ref.fold
+        exact_raw = not built[-1].ref.fold
         fq = folder_queries(rng, files)
         fq_raw = folder_queries(rng, files, exact_only=True) if exact_raw else fq
         misses = miss_queries(files)
@@ -846,7 +855,7 @@ def main(run, shard=(0, 1)) -> None:
     run.extra['raw_backend_case_sensitive'] = bool(_CASE_SENSITIVE)
     probe.report(run)
     probe.check_reached(run)
-    run.require('lookups', 'walks', 'listed_names_looked_up', 'chain_lookups', 'chain_walks', 'add_sys_priority',
+    run.require('lookups', 'file_sets_with_non_ascii_names', 'walks', 'listed_names_looked_up', 'chain_lookups', 'chain_walks', 'add_sys_priority',
                 'chains_with_prefixed_member', 'backend_virtual', 'backend_zip', 'backend_vpk', 'backend_raw',
                 'casedup_backends_checked', 'chain_members_4', 'chains_with_member_mounted_twice')
 
